@@ -35,7 +35,8 @@ OPTS = {
     "pot": ["nn", "long", "central-nn", "short"],
     # where the displacements fed to the force model come from: the dataset, or the displaced supercells handed out
     # after an earlier generate_displacements() call with other options (the calculator workflow, repeated)
-    "wf": ["dataset", "supercells-after-regen"],
+    # "forces-strided": the same forces handed over as a non-contiguous view (every other row block of a larger table)
+    "wf": ["dataset", "supercells-after-regen", "forces-strided"],
 }
 DEFAULT = {k: v[0] for k, v in OPTS.items()}
 
@@ -158,6 +159,10 @@ def run_case(case, seed, c, phs, fcs):
             fbuf = np.array([-np.einsum("ijab,jb->ia", ref, sc_.positions - base) for sc_ in scs], dtype="double", order="C")
         else:
             fbuf = np.array(SP.forces_for_dataset(ref, ds), dtype="double", order="C")
+        if case.get("wf") == "forces-strided":
+            big = np.full((fbuf.shape[0], fbuf.shape[1], 6), 4.2)
+            big[:, :, ::2] = fbuf
+            fbuf = big[:, :, ::2]
         ph.forces = fbuf
         # the caller's buffer is reused afterwards (the usual loop over volumes / displacements): the forces that count are those
         # at the time of the call
